@@ -83,7 +83,10 @@ fn exec_ops(ctx: &mut Ctx, ev: &Ev) {
         let a = Esop::from_cubes(n, la.iter().map(|c| c.real()).collect::<Vec<Cube>>());
         let b = Esop::from_cubes(n, lb.iter().map(|c| c.real()).collect::<Vec<Cube>>());
         let self_xor = &a ^ &a;
-        let self_vals: Vec<bool> = (0..1usize << n).map(|m| self_xor.value(m)).collect();
+        let mut self_vals: Vec<bool> = (0..1usize << n).map(|m| self_xor.value(m)).collect();
+        // the result of the aliased form must be a form over the same variables: its arity, its table
+        let self_lut = Lut::from(&self_xor);
+        self_vals.push(self_xor.num_vars() != n || self_lut.num_vars() != n || self_lut != Lut::zero(n));
         let xs = [&a ^ &b, &a ^ b.clone(), a.clone() ^ &b, a.clone() ^ b.clone()];
         let ns = [!&a, !a.clone()];
         let va: Vec<bool> = (0..1usize << n).map(|m| a.value(m)).collect();
@@ -110,7 +113,7 @@ fn exec_ops(ctx: &mut Ctx, ev: &Ev) {
     ctx.check("esop-to-lut", Model::from_blocks(n, lut_a.blocks()).bits == fa && lut_a.num_vars() == n, ev, "lut", || "Lut::from(&esop) is not the tabulated XOR".into());
     ctx.check("esop-is-zero-sound", !isz || fa.iter().all(|b| !*b), ev, "is_zero", || "is_zero on a non-zero Esop".into());
     ctx.check("esop-is-one-sound", !iso || fa.iter().all(|b| *b), ev, "is_one", || "is_one on a non-one Esop".into());
-    ctx.check("esop-xor-semantic", self_vals.iter().all(|b| !*b), ev, "aliased &a ^ &a", || "&a ^ &a (one object on both sides) does not denote constant zero".into());
+    ctx.check("esop-xor-semantic", self_vals.iter().all(|b| !*b), ev, "aliased &a ^ &a", || "&a ^ &a (one object on both sides) is not the constant zero over the same variables (value, num_vars or Lut::from)".into());
     let want_x: Vec<bool> = fa.iter().zip(fb.iter()).map(|(x, y)| x != y).collect();
     for (k, x) in xs.iter().enumerate() {
         let got: Vec<bool> = (0..1usize << n).map(|m| x.value(m)).collect();
